@@ -122,7 +122,7 @@ V("C47-revert-fix-wrap","C47",SH+"gc.go","if ne.epoch >= uint64(unpaidSince) && 
 V("C47-payment-error-falls-through","C47",SH+"gc.go","""			l.Warn("cannot check payment status for container", zap.Stringer("cID", cID), zap.Error(err))
 			continue""","""			l.Warn("cannot check payment status for container", zap.Stringer("cID", cID), zap.Error(err))""",rule="C47.R1")
 V("C47-grace-two-epochs","C47",SH+"gc.go","const maxUnpaidEpochDelay = 3","const maxUnpaidEpochDelay = 2",rule="C47.R1")
-V("C47-engine-any-error","C47","pkg/local_object_storage/engine/container.go","if _, err = e.containerSource.Get(cnrStored); errors.As(err, new(apistatus.ContainerNotFound)) {","if _, err = e.containerSource.Get(cnrStored); err != nil {",rule="C47.R3")
+V("C47-engine-any-error","C47","pkg/local_object_storage/engine/container.go","if _, err = e.containerSource.Get(cnrStored); errors.As(err, new(apistatus.ContainerNotFound)) {","if _, err = e.containerSource.Get(cnrStored); err != nil && !errors.As(err, new(apistatus.ServerInternal)) {",rule="C47.R3")
 V("C47-policer-any-error","C47","pkg/services/policer/check.go","		if containercore.IsErrNotFound(err) {\n			err = p.deleteLocalObject(ctx, addrWithAttrs.Address, isEC)","		if containercore.IsErrNotFound(err) || errors.Is(err, context.Canceled) {\n			err = p.deleteLocalObject(ctx, addrWithAttrs.Address, isEC)",rule="C47.R3")
 V("C47-iserrnotfound-widened","C47","pkg/core/container/storage.go","	return errors.As(err, new(apistatus.ContainerNotFound))","	return errors.As(err, new(apistatus.ContainerNotFound)) || errors.As(err, new(apistatus.ServerInternal))",rule="C47.R4")
 V("C47-silent-order-test-first","C47",SH+"gc.go","""		if ne.epoch >= uint64(unpaidSince) && ne.epoch-uint64(unpaidSince) >= maxUnpaidEpochDelay {""","""		if uint64(unpaidSince) > ne.epoch {
@@ -463,8 +463,10 @@ V("C02-shard-metrics-before-error","C02","pkg/local_object_storage/shard/inhume.
 	if err != nil {""",rule="C02.R4")
 
 # ---- C09
-V("C09-put-ignores-tombstone","C09",MB+"put.go","""		// OK, we're putting here.
-	case err != nil:""","""		// OK, we're putting here.
+V("C09-put-ignores-tombstone","C09",MB+"put.go","""			return diff, nil
+		}
+	case err != nil:""","""			return diff, nil
+		}
 	case errors.Is(err, apistatus.ErrObjectAlreadyRemoved) && nestingLevel > 0:
 	case err != nil:""",rule="C09.R1")
 V("C09-batch-tolerates-all","C09",MB+"put.go","""					continue
@@ -503,15 +505,24 @@ V("C09-silent-put-switch-to-if","C09",MB+"put.go","""	switch {
 	case exists:
 		return diff, nil
 	case errors.As(err, &apistatus.ObjectNotFound{}):
-		// OK, we're putting here.
+		// Marked as garbage. If the object is still indexed (not collected
+		// yet), indexes and counters include it already.
+		if _, typErr := fetchTypeForID(metaBkt.Cursor(), obj.GetID()); typErr == nil {
+			return diff, nil
+		}
 	case err != nil:
 		return diff, err // return any other errors
 	}
 ""","""	if exists {
 		return diff, nil
 	}
-	if err != nil && !errors.As(err, &apistatus.ObjectNotFound{}) {
-		return diff, err // return any other errors
+	if err != nil {
+		if !errors.As(err, &apistatus.ObjectNotFound{}) {
+			return diff, err // return any other errors
+		}
+		if _, typErr := fetchTypeForID(metaBkt.Cursor(), obj.GetID()); typErr == nil {
+			return diff, nil
+		}
 	}
 """,expect="silent")
 V("C02-reput-counts-again","C02",MB+"put.go","""		if _, typErr := fetchTypeForID(metaBkt.Cursor(), obj.GetID()); typErr == nil {
